@@ -111,6 +111,7 @@ func RunLong(w *World, o LongOpts) error {
 		d.flushAll()
 	}
 	d.grow(o.Size, 250)
+	var lastDrain H
 	for k := 0; k < o.Truncations; k++ {
 		if k > 0 {
 			d.grow(o.Between, 250)
@@ -139,7 +140,9 @@ func RunLong(w *World, o LongOpts) error {
 		// drain: the drainer sends everything it holds (as reported by node 0) back, and is re-funded a little later
 		if b, err := w.Nodes[0].Book.CalculateBalance(w.Ctx, drainer.Addr); err == nil && (b.Spice.Currency > 0 || b.Spice.SupplementaryCurrency > 0) {
 			t := w.NewTrx(drainer, w.Users[0].Addr, b.Spice, nil)
-			d.proposeOn(w.Nodes[0], &t, "drainer spends everything")
+			if dv, err := d.proposeOn(w.Nodes[0], &t, "drainer spends everything"); err == nil {
+				lastDrain = dv.Hash
+			}
 			d.flushAll()
 			w.Res.Count("c07_drainer_drained", 1)
 		}
@@ -147,6 +150,29 @@ func RunLong(w *World, o LongOpts) error {
 			d.grow(40, 0)
 			t := w.NewTrx(w.Users[0], drainer.Addr, spice.Melange{Currency: 3}, nil)
 			_ = t // funded again only after the next truncation (keeps the checkpoint at exactly zero for it)
+		}
+	}
+	// with repeated truncations the drainer's spend-everything vertex must itself get checkpointed (that is what brings
+	// its checkpointed funds to exactly zero): keep growing and truncating node 0 until it is (bounded)
+	if o.Truncations > 1 && lastDrain != (H{}) {
+		for extra := 0; extra < 3; extra++ {
+			if _, ok := w.Nodes[0].Prev.Stored[lastDrain]; ok {
+				break
+			}
+			d.grow(450, 0)
+			for round := 0; round < 2; round++ {
+				t := w.NewTrx(w.Users[0], w.Users[1].Addr, spice.Melange{}, []byte("merge"))
+				d.proposeOn(w.Nodes[0], &t, "merge")
+			}
+			w.TruncateChecked(w.Nodes[0], d, false)
+			w.Res.Count("c07_extra_truncations_until_drain_checkpointed", 1)
+			if b, err := w.Nodes[0].Book.CalculateBalance(w.Ctx, drainer.Addr); err == nil && (b.Spice.Currency > 0 || b.Spice.SupplementaryCurrency > 0) {
+				t := w.NewTrx(drainer, w.Users[0].Addr, b.Spice, nil)
+				d.proposeOn(w.Nodes[0], &t, "drainer spends what it is told it holds")
+			}
+		}
+		if _, ok := w.Nodes[0].Prev.Stored[lastDrain]; ok {
+			w.Res.Count("c07_drain_vertex_checkpointed", 1)
 		}
 	}
 	// hostile traffic after the truncation: the snapshot oracles keep watching
